@@ -14,6 +14,10 @@ Seams (all through the REAL library, `Cube(response, population=…)` / `CubeSet
             MoE additionally against Z·population·fraction·(library's own row/column/table std-err, whichever
             matches the chosen proportion) on every cell incl. differences.  Linearity: a second cube with k·population.
   strand  : the same for `_Strand`.
+  augment : multi-cube CubeSets over a text rows variable whose 2nd/3rd response is a single-column filter cube listing
+            fewer labels than the summary (so `Cube.augment_response` rebuilds it): the augmented partition's
+            population_counts / MoE / fraction against the Spec on the zero-padded survey and against a plain Cube.
+Subtotal differences include negative-only insertions and differences whose positive ids are all missing / stale.
 """
 from fractions import Fraction
 import copy
@@ -268,7 +272,11 @@ KINDS2 = ["cat", "cat", "cat_date", "cat_date", "mr", "datetime", "text"]
 
 
 def _subtotals(rng, var):
+    """subtotals and differences; some terms refer to MISSING categories or to ids the variable does not have
+    (stale), and some differences are negative-only or keep only their negative term — a subtotal that
+    subtracts a valid category is a difference whatever is left of its positive side."""
     ids = [c["id"] for c in var.cats if not c["missing"]]
+    dead = [c["id"] for c in var.cats if c["missing"]] + [max(c["id"] for c in var.cats) + 7, 9999]
     out = []
     for k in range(rng.choice([0, 1, 1, 2])):
         pos = rng.sample(ids, rng.randint(1, min(3, len(ids))))
@@ -276,9 +284,22 @@ def _subtotals(rng, var):
         neg = []
         if rest and rng.random() < 0.6:
             neg = rng.sample(rest, rng.randint(1, min(2, len(rest))))
+        style = rng.random()
+        if neg and style < 0.2:
+            pos = []                                    # negative-only insertion
+        elif neg and style < 0.4:
+            pos = rng.sample(dead, rng.randint(1, 2))   # positive side all missing / stale
+        elif style < 0.55:
+            pos = pos + rng.sample(dead, 1)             # a stale extra on the positive side
+        elif neg and style < 0.65:
+            neg = neg + rng.sample(dead, 1)             # a stale extra on the negative side
+        elif style < 0.72 and not neg:
+            neg = rng.sample(dead, 1)                   # negative side all stale: an ordinary subtotal
         anchor = rng.choice(["top", "bottom"] + ids)
-        out.append({"function": "subtotal", "name": "S%d" % k, "anchor": anchor, "args": pos,
-                    "kwargs": {"negative": neg} if neg else {}})
+        kwargs = {"negative": neg} if neg else {}
+        if pos and rng.random() < 0.3:
+            kwargs["positive"] = list(pos)
+        out.append({"function": "subtotal", "name": "S%d" % k, "anchor": anchor, "args": pos, "kwargs": kwargs})
     return out
 
 
@@ -313,6 +334,51 @@ def gen_table(rng, strand=False):
             "extras": random_extras(rng)}
 
 
+def gen_augment(rng):
+    """a tabbook over a TEXT rows variable: summary cube + 1-2 single-column filter cubes that list only (some
+    of) the labels they have cases for, so that the CubeSet augments them to the summary's shape."""
+    n = rng.randint(2, 6)
+    nresp = rng.randint(4, 40)
+    answers = [rng.choice(list(range(n)) + [n]) if rng.random() < 0.9 else n for _ in range(nresp)]   # n = missing
+    filters = []
+    for _ in range(rng.choice([1, 1, 2])):
+        support = rng.sample(range(n), rng.randint(0, n - 1))       # labels the filter can reach (never all)
+        members = [i for i, a in enumerate(answers) if (a in support or a == n) and rng.random() < 0.8]
+        keep_zero = [l for l in support if rng.random() < 0.3]       # zero-count labels still listed
+        filters.append({"members": members, "keep_zero": keep_zero})
+    return {"t": "augment", "n": n, "answers": answers, "filters": filters,
+            "population": rng.choice([p for p in POPULATIONS if p]), "k": rng.choice([2, 3, 0.5, 10]),
+            "extras": [random_extras(rng) for _ in range(1 + len(filters))]}
+
+
+def _augment_cubes(case):
+    """per cube: (labels listed by the response, respondents' answers in SUMMARY positions)"""
+    n = case["n"]
+    cubes = [(list(range(n)), list(case["answers"]))]
+    for f in case["filters"]:
+        ans = [case["answers"][i] for i in f["members"]]
+        listed = [l for l in range(n) if l in ans or l in f["keep_zero"]]
+        if len(listed) == n:
+            listed = listed[:-1] if listed[-1] not in ans else [l for l in listed if l in ans]
+        cubes.append((listed, ans))
+    return cubes
+
+
+def _augment_response(n, listed, ans, extras, single_col):
+    """the response as the back end sends it: only `listed` labels (ids = positions) + the missing element"""
+    cats = [{"id": k, "missing": False, "name": "L%d" % l, "numeric_value": None} for k, l in enumerate(listed)]
+    cats.append({"id": -1, "missing": True, "name": "No Data", "numeric_value": None})
+    v = gen.Var("text", "txt", cats=cats)
+    local = {l: k for k, l in enumerate(listed)}
+    survey = [(Fraction(1), [[local.get(a, len(listed))]]) for a in ans if a == n or a in local]
+    resp = gen.cube_response([v], survey, False)
+    for k, val in extras.items():
+        resp["result"][k] = copy.deepcopy(val)
+    if single_col:
+        resp["result"]["is_single_col_cube"] = True
+    return resp
+
+
 FS_OPTS = fs_options()
 SIDE_OPTS = side_options()
 
@@ -335,6 +401,8 @@ def generate(ctx):
         cases.append(gen_table(rng, strand=False))
     for _ in range(ctx.n(160, 4000)):
         cases.append(gen_table(rng, strand=True))
+    for _ in range(ctx.n(40, 600)):
+        cases.append(gen_augment(rng))
     return cases
 
 
@@ -361,12 +429,14 @@ def base_lines(v):
 
 
 def subtotal_lines(v, subs):
-    id2pos = {c["id"]: p for p, c in enumerate(v.cats)}
+    id2pos = {c["id"]: p for p, c in enumerate(v.cats) if not c["missing"]}
     valid = v.valid_cat_pos
     out = []
     for st in subs:
-        add = [id2pos[i] for i in st["args"]]
-        neg = st.get("kwargs", {}).get("negative", [])
+        positive = st.get("kwargs", {}).get("positive") or st.get("args", [])
+        add = [id2pos[i] for i in positive if i in id2pos]
+        neg = [i for i in st.get("kwargs", {}).get("negative", []) if i in id2pos]
+        # a subtotal DIFFERENCE: it subtracts at least one valid category
         out.append(({"cat": {"members": add, "valid": valid}}, bool(neg)))
     return out
 
@@ -425,6 +495,16 @@ def _frac_wire(fr):
 def lean_ops(case):
     if case["t"] == "frac":
         return [{"op": "pop_fraction", "results": case["results"]}]
+    if case["t"] == "augment":
+        ops = [{"op": "pop_fraction", "results": case["extras"]}]
+        n = case["n"]
+        lines = [{"cat": {"members": [p], "valid": list(range(n))}} for p in range(n)]
+        for (listed, ans), extras in zip(_augment_cubes(case), case["extras"]):
+            ops.append({"op": "pop_strand", "survey": [{"w": "1", "ans": [[a]]} for a in ans], "row_lines": lines,
+                        "rows_cat_date": False, "diff_rows": [],
+                        "population": gen.frac_str(Fraction(case["population"])),
+                        "fraction": _frac_wire(py_fraction(extras))})
+        return ops
     vars_, survey = _load(case)
     ops = [{"op": "pop_fraction", "results": [case["extras"]]}]
     fr = _frac_wire(py_fraction(case["extras"]))
@@ -690,15 +770,66 @@ def eval_table(case, louts, ctx):
     return findings, key
 
 
+def eval_augment(case, louts, ctx):
+    from cr.cube.cube import Cube, CubeSet
+    n, pop = case["n"], case["population"]
+    cubes = _augment_cubes(case)
+    findings = []
+    key = None
+
+    def responses():
+        return [_augment_response(n, listed, ans, extras, idx > 0)
+                for idx, ((listed, ans), extras) in enumerate(zip(cubes, case["extras"]))]
+    cs = CubeSet(responses(), transforms=[{} for _ in cubes], population=pop, min_base=0)
+    psets = common.call_impl(lambda: len(cs.partition_sets))
+    if psets != 1:
+        raise common.HarnessFault("expected one partition set, got %r" % (psets,))
+    parts = cs.partition_sets[0]
+    cs2 = CubeSet(responses(), transforms=[{} for _ in cubes], population=pop * case["k"], min_base=0)
+    for idx, ((listed, ans), extras) in enumerate(zip(cubes, case["extras"])):
+        out = louts[1 + idx]
+        augmented = idx > 0 and len(listed) != n
+        tag = "cubeset.%s" % ("augmented" if augmented else ("filter-col" if idx else "summary"))
+        ctx.count(tag)
+        frac = common.model_to_float(_frac_wire(py_fraction(extras)))
+        part = parts[idx]
+        impl_f = common.call_impl(lambda: part.population_fraction)
+        if not _same(impl_f, frac):
+            findings.append({"kind": "spec", "locus": tag + ".population_fraction",
+                             "detail": "cube %d: %r != %r on %r" % (idx, impl_f, frac, extras)})
+        impl_c = common.call_impl(lambda: part.population_counts)
+        impl_m = common.call_impl(lambda: part.population_counts_moe)
+        note = "cube %d listed=%r pop=%r frac=%r" % (idx, listed, pop, frac)
+        _cmp(findings, "spec", tag + ".population_counts", impl_c, common.model_to_float(out["spec"]["counts"]), note)
+        _cmp(findings, "spec", tag + ".population_counts_moe", impl_m, common.model_to_float(out["spec"]["moe"]), note)
+        _cmp(findings, "model", "seam." + tag + ".population_counts", impl_c, common.model_to_float(out["model"]["counts"]), note)
+        # the same numbers as a plain Cube over the zero-padded response
+        padded = _augment_response(n, list(range(n)), ans, extras, False)
+        plain = Cube(padded, population=pop).partitions[0]
+        _cmp(findings, "spec", tag + ".population_counts.vs-plain-cube", impl_c, common.call_impl(lambda: plain.population_counts), note)
+        _cmp(findings, "spec", tag + ".population_counts_moe.vs-plain-cube", impl_m, common.call_impl(lambda: plain.population_counts_moe), note)
+        impl_c2 = common.call_impl(lambda: cs2.partition_sets[0][idx].population_counts)
+        if isinstance(impl_c, list):
+            _cmp(findings, "spec", tag + ".population_counts.linearity", impl_c2, [case["k"] * x for x in impl_c], "k=%r" % case["k"])
+        if augmented and isinstance(impl_c, list) and _distinct_pos(impl_c) >= 1:
+            key = ("augment", n, len(listed), shape_class(extras).split("|")[0], pop)
+    return findings, key
+
+
 def evaluate(case, louts, ctx):
     if case["t"] == "frac":
         return eval_frac(case, louts, ctx)
+    if case["t"] == "augment":
+        return eval_augment(case, louts, ctx)
     return eval_table(case, louts, ctx)
 
 
 def describe(case):
     if case["t"] == "frac":
         return {"t": "frac", "stream": case["stream"], "n_results": len(case["results"]), "first": case["results"][:2]}
+    if case["t"] == "augment":
+        return {"t": "augment", "n_labels": case["n"], "n_respondents": len(case["answers"]),
+                "listed": [l for l, _ in _augment_cubes(case)], "population": case["population"], "extras": case["extras"]}
     return {"t": case["t"], "kinds": [v["kind"] for v in case["vars"]], "n_respondents": len(case["survey"]),
             "weighted": case["weighted"], "subtotals": case["subtotals"], "population": case["population"],
             "extras": case["extras"]}
@@ -711,6 +842,13 @@ def shrink_candidates(case):
             if "tags" in case:
                 c["tags"] = [case["tags"][i]]
             yield c
+        return
+    if case["t"] == "augment":
+        if len(case["filters"]) > 1:
+            for i in range(len(case["filters"])):
+                yield dict(case, filters=[case["filters"][i]], extras=[case["extras"][0], case["extras"][1 + i]])
+        if any(case["extras"]):
+            yield dict(case, extras=[{} for _ in case["extras"]])
         return
     sv = case["survey"]
     n = len(sv)
